@@ -1365,9 +1365,7 @@ Proof.
     apply ret_inv in H4. destruct H4 as [-> _]. cbn [dirs w_mfree]. exact H1. }
   binv H5 s0 s4 H5 H6. apply get_inv in H5. destruct H5 as [-> ->].
   destruct (strip_free (minifat s3) 0) as [mf' k].
-  binv H6 u4 s4 H6 H7.
-  assert (s4 = s3) as ->.
-  { destruct (d_len r <? k * MINI_SECTOR_LEN); [discriminate H6|]. apply ret_inv in H6. tauto. }
+  rename H6 into H7.
   cbv zeta in H7. binv H7 u5 s5 H7 H8. unfold put in H7. injection H7 as <-.
   match type of H8 with (if ?b then _ else _) _ = _ => destruct b end.
   - destruct (wdem_inv _ _ _ _ _ H8) as (e & He & Hds). rewrite Hds. cbn [dirs w_mfree w_minifat].
